@@ -16,6 +16,7 @@ import numpy as np
 import rowan
 
 import gen
+import history
 from common import L, ModelRaise, exc_kind
 
 RULE = ("shapes x: gen.convex_solid (ConvexPolyhedron, ConvexSpheropolyhedron, Polyhedron copy), C02 meshes (voxel solids, "
@@ -24,8 +25,16 @@ RULE = ("shapes x: gen.convex_solid (ConvexPolyhedron, ConvexSpheropolyhedron, P
         "rectangles, Circle, Ellipse, Sphere, Ellipsoid; transformations g: proper rotation (random; in-plane for "
         "xy shapes; axis permutations for Ellipse/Ellipsoid), translation <= 10 diameters, uniform scale 1e-3..1e3, "
         "relabelling (vertex permutation for convex classes; vertex relabelling + cyclic shift of every face for "
-        "Polyhedron; cyclic shift for Polygon), and their composition; every public query by reflection; "
-        "distinct = distinct (class, parameters); non-trivial = all")
+        "Polyhedron; cyclic shift for Polygon), and their composition; a third of the rotations are ALMOST symmetries of "
+        "the axes (gen.near_axis_rotation: tilt 1e-7..3e-2 rad, optional flip / quarter turn; in-plane: a multiple of a "
+        "quarter turn +- 1e-7..3e-2), polygons also in almost-flat planes; vertices and query points in the (N,2) and "
+        "(N,3) layouts (xy-plane shapes, independently for x and g(x)); g(x) built directly or (one third) REACHED THROUGH "
+        "MUTATORS (history.maybe_via_history: scaled, shifted copy -> every member read -> size / centroid / radius "
+        "setters); on half of the cases the exports (to_hoomd, gsd_shape_spec, inertia_tensor, repr) are called on the "
+        "object before the queries; every public query by reflection; fixed corpus: repaired scale/position defects, "
+        "axis-aligned shapes against rotated and almost-axis-aligned copies, and one case per absolute tolerance left in "
+        "the Python (isclose(q^2,0), isclose(z,0), coplanarity tolerance); distinct = distinct (class, parameters); "
+        "non-trivial = all")
 ASSUMPTIONS = [
     "tolerance 1e-9 * natural scale ((size + |offset|)^k, maximum over x and g(x)); 1e-6 relative for the "
     "miniball-derived minimal bounding circle/sphere (iterative external solver); 1e-7 * measure for form factors "
@@ -42,6 +51,11 @@ ASSUMPTIONS = [
     "sweep; the scale dependence of those windows is exercised by fixed cases and reported as a known finding",
     "ConvexPolyhedron.simplices: the triangulation of a non-triangular facet is Qhull's choice; only count and total "
     "area are subject to the law",
+    "an export that RAISES and leaves the shape moved (Polyhedron.to_hoomd on a polyhedron with a non-convex face) is "
+    "reported once under its own signature; the remaining queries of that case are then asked of a fresh copy",
+    "the (N,2) layout of query points is compared only when g maps the plane z = 0 to itself",
+    "shapes reached through mutators agree with the directly built ones to 1e-12 * (size + offset) (checked by "
+    "history.via_history, which otherwise falls back to the direct object): inside the 1e-9 tolerances used here",
 ]
 
 SKIP = {
@@ -84,6 +98,7 @@ for _n in ("minimal_bounding_circle", "minimal_centered_bounding_circle", "maxim
            "minimal_bounding_sphere", "minimal_centered_bounding_sphere", "maximal_bounded_sphere",
            "maximal_centered_bounded_sphere", "circumsphere", "insphere"):
     LAWS[_n] = "ball"
+LAWS["is_inside:N2"] = "inside"
 MINIBALL = {"minimal_bounding_circle", "minimal_bounding_sphere", "minimal_bounding_circle_radius",
             "minimal_bounding_sphere_radius"}
 Z = np.array([0.0, 0.0, 1.0])
@@ -95,6 +110,15 @@ WIN = 1e-8
 def rot_z(al):
     c, s = np.cos(al), np.sin(al)
     return np.array([[c, -s, 0.0], [s, c, 0.0], [0.0, 0.0, 1.0]])
+
+
+NEAR_AXIS_P = 0.35
+
+
+def near_quarter_turn(rng):
+    """k * pi/2 + delta, |delta| log-uniform in [1e-7, 3e-2]"""
+    d = float(np.exp(rng.uniform(np.log(1e-7), np.log(3e-2)))) * (1.0 if rng.random() < 0.5 else -1.0)
+    return int(rng.integers(0, 4)) * np.pi / 2 + d
 
 
 def make_g(rng, kind, case):
@@ -112,9 +136,18 @@ def make_g(rng, kind, case):
         elif cls == "Ellipsoid":
             g["R"] = gen.c05_signed_perm_rotation(rng)
         elif cls == "Circle" or (inplane and rng.random() < 0.75):
-            al = float(rng.uniform(0, 2 * np.pi))
+            if cls != "Circle" and rng.random() < NEAR_AXIS_P:
+                # almost a multiple of a quarter turn: edges of an axis-aligned x get slopes ~ +-1e-7..3e-2 or their
+                # reciprocals (next to the slope 0 / infinity branches), normals next to the argmax ties
+                al = near_quarter_turn(rng)
+                g["near_axis"] = True
+            else:
+                al = float(rng.uniform(0, 2 * np.pi))
             g["R"] = rot_z(al)
             g["alpha"] = al
+        elif rng.random() < NEAR_AXIS_P:
+            g["R"] = gen.near_axis_rotation(rng)      # tilt 1e-7..3e-2 rad, optional flip / quarter turn
+            g["near_axis"] = True
         else:
             g["R"] = gen.random_rotation(rng)
     if kind in ("translation", "composite"):
@@ -178,6 +211,8 @@ def transform_case(case, g):
         if rl and "shift" in rl:
             V = np.roll(V, -rl["shift"], axis=0)
         out["vertices"] = V.tolist()
+        if "layout" in case or g.get("layout"):
+            out["layout"] = g.get("layout") or "N3"
         if case.get("normal") is not None:
             out["normal"] = (R @ np.asarray(case["normal"], dtype=float)).tolist()
         if "radius" in case:
@@ -199,6 +234,14 @@ def transform_case(case, g):
     return out
 
 
+def layout_vertices(case):
+    """the vertex argument in the layout the case asks for: (N,3), or (N,2) when every z is exactly 0"""
+    V = np.array(case["vertices"], dtype=float)
+    if case.get("layout") == "N2" and np.all(V[:, 2] == 0.0):
+        return V[:, :2].copy()
+    return V
+
+
 def build(case):
     import coxeter
     S = coxeter.shapes
@@ -213,12 +256,12 @@ def build(case):
         kw = {}
         if case.get("normal") is not None:
             kw["normal"] = np.array(case["normal"], dtype=float)
-        return getattr(S, cls)(np.array(case["vertices"], dtype=float), **kw)
+        return getattr(S, cls)(layout_vertices(case), **kw)
     if cls == "ConvexSpheropolygon":
         kw = {}
         if case.get("normal") is not None:
             kw["normal"] = np.array(case["normal"], dtype=float)
-        return S.ConvexSpheropolygon(np.array(case["vertices"], dtype=float), case["radius"], **kw)
+        return S.ConvexSpheropolygon(layout_vertices(case), case["radius"], **kw)
     if cls == "Circle":
         return S.Circle(case["radius"], case["center"])
     if cls == "Sphere":
@@ -304,13 +347,26 @@ def observe(shape, probes, which, ctx, fresh=None, exports_first=False):
         warnings.simplefilter("ignore")
         if exports_first:
             for nm in ("to_hoomd", "gsd_shape_spec", "inertia_tensor", "__repr__"):
+                before = geometry_key(shape)
                 try:
                     m = getattr(shape, nm, None)
                     if callable(m):
                         m()
-                except Exception:  # noqa: BLE001  (reported through the queries themselves)
-                    pass
-        for name, kind in public_members(shape):
+                except Exception as e:  # noqa: BLE001  (reported through the queries themselves)
+                    after = geometry_key(shape)
+                    if before.shape != after.shape or float(np.max(np.abs(before - after))) > 1e-9 * probes["size"]:
+                        # the export raised half-way and left the shape somewhere else: every later answer would be
+                        # about another shape.  Reported once, as itself; the caller goes on with a fresh copy.
+                        return {"__export_moved__": ("err", [nm, exc_kind(e),
+                                                             float(np.max(np.abs(before - after))) if before.shape == after.shape else None])}
+        members = public_members(shape)
+        if probes.get("order") is not None:
+            # the queries in an order drawn per case (the same for x and every g(x)): an answer must not depend on
+            # what was asked before; a cache filled by one query in a temporary frame shows only when another query is
+            # read AFTER it
+            orng = np.random.default_rng(probes["order"])
+            members = [members[i] for i in orng.permutation(len(members))]
+        for name, kind in members:
             if name in SKIP:
                 continue
             try:
@@ -335,7 +391,20 @@ def observe(shape, probes, which, ctx, fresh=None, exports_first=False):
                 obs[name] = ("ok", canon(v))
             except Exception as e:  # noqa: BLE001
                 obs[name] = ("err", exc_kind(e))
+        # the (N,2) layout of the query points (planar classes, shape in the plane z = 0)
+        if probes.get("n2_" + which) and hasattr(shape, "is_inside"):
+            try:
+                obs["is_inside:N2"] = ("ok", canon(shape.is_inside(np.array(probes["points_" + which])[:, :2].copy())))
+            except Exception as e:  # noqa: BLE001
+                obs["is_inside:N2"] = ("err", exc_kind(e))
     return obs
+
+
+def geometry_key(shape):
+    """where the shape is (to notice an export that raised and left it moved)"""
+    if hasattr(shape, "vertices"):
+        return np.array(shape.vertices, dtype=float)
+    return np.asarray(shape.centroid, dtype=float).ravel().copy()
 
 
 # ===================================================================== probes (query points, angles, wave vectors)
@@ -386,8 +455,11 @@ def make_probes(rng, case, shape):
         stencil = [np.eye(3)[i] * sg for i in range(3) for sg in (1.0, -1.0)]
     P[0] = c0
     pr["points_x"] = P
+    pr["n2_x"] = bool(planar and np.all(P[:, 2] == 0.0) and ("vertices" not in case or np.all(V[:, 2] == 0.0)))
     pr["stencil"] = stencil
     pr["size"] = size
+    # half of the cases: alphabetical order of the queries; the other half: a random order
+    pr["order"] = int(rng.integers(2 ** 31)) if rng.random() < 0.5 else None
     pr["cache"] = {}
     # ---- angles (2-D)
     pr["angles_x"] = np.r_[rng.uniform(0, 2 * np.pi, size=12), [0.0, np.pi / 2, np.pi, 3 * np.pi / 2],
@@ -406,6 +478,7 @@ def map_probes(pr, g):
     al = g["alpha"] if g["alpha"] is not None else 0.0
     pr["angles_g"] = pr["angles_x"] + al
     pr["q_g"] = (pr["q_x"] @ R.T) / s
+    pr["n2_g"] = bool(pr.get("n2_x") and np.all(pr["points_g"][:, 2] == 0.0))
     return pr
 
 
@@ -819,7 +892,7 @@ def law_dts(env, vx, vg):
             float(env.pr["angles_x"][k]), float(vx[k]), float(vg[k]))
     fin = finx
     env.ctx.count("dts:angles", int(fin.sum()))
-    if not env.close(vx[fin] * env.s, vg[fin], env.dg, 1e-7):
+    if not env.close(vx[fin] * env.s, vg[fin], env.dg, 1e-9):
         k = int(np.argmax(np.abs(vx[fin] * env.s - vg[fin])))
         return "distance_to_surface(theta+alpha) != s * distance_to_surface(theta): theta=%r: %r vs %r" % (
             float(env.pr["angles_x"][fin][k]), float(vx[fin][k] * env.s), float(vg[fin][k]))
@@ -918,6 +991,8 @@ def compare(env):
     for name in sorted(set(env.ox) | set(env.og)):
         a, b = env.ox.get(name), env.og.get(name)
         if a is None or b is None:
+            if name.endswith(":N2"):
+                continue                      # the (N,2) layout cannot express the image points (g leaves the plane z = 0)
             out.append((name, "member exists on one side only", [a is None, b is None]))
             continue
         ctx.count("query:" + name)
@@ -1092,12 +1167,12 @@ def model_covariance(ctx, case, g, mx, mg, env):
 
 def g_json(g):
     return {"kind": g["kind"], "s": g["s"], "R": np.asarray(g["R"]).tolist(), "t": np.asarray(g["t"]).tolist(),
-            "alpha": g["alpha"], "relabel": g["relabel"]}
+            "alpha": g["alpha"], "relabel": g["relabel"], "layout": g.get("layout"), "via": g.get("via", False)}
 
 
 def g_from_json(j):
     return {"kind": j["kind"], "s": float(j["s"]), "R": np.array(j["R"], dtype=float), "t": np.array(j["t"], dtype=float),
-            "alpha": j["alpha"], "relabel": j["relabel"]}
+            "alpha": j["alpha"], "relabel": j["relabel"], "layout": j.get("layout"), "via": j.get("via", False)}
 
 
 def gen_convex3(rng, ctx, cls):
@@ -1169,8 +1244,11 @@ def gen_polygon(rng, ctx, cls, axis_aligned=False):
         turn = np.abs(e1[:, 0] * e2[:, 1] - e1[:, 1] * e2[:, 0]) / (np.linalg.norm(e1, axis=1) * np.linalg.norm(e2, axis=1))
         if turn.min() > 1e-3:
             break
-    plane = "xy" if (axis_aligned or rng.random() < 0.6) else "random"
+    plane = "xy" if (axis_aligned or rng.random() < 0.6) else ("neartilt" if rng.random() < 0.4 else "random")
     v, fr = gen.embed_polygon(rng, p2, plane=plane, offset_diams=(0.0 if rng.random() < 0.4 else None))
+    if plane == "neartilt":
+        ctx.count("plane:neartilt")
+        plane = "random"          # (for the laws: not the xy frame)
     orientation = "ccw"
     if cls == "Polygon" and rng.random() < 0.35:
         v = v[::-1].copy()
@@ -1182,6 +1260,9 @@ def gen_polygon(rng, ctx, cls, axis_aligned=False):
     ctx.count("plane:" + plane)
     case = {"cls": cls, "vertices": v.tolist(), "normal": normal, "kind": kind, "plane": plane,
             "orientation": orientation}
+    if plane == "xy" and np.all(v[:, 2] == 0.0):
+        case["layout"] = "N2" if rng.random() < 0.5 else "N3"
+        ctx.count("layout:" + case["layout"])
     if cls == "ConvexSpheropolygon":
         case["radius"] = float(gen.diameter(v) * (0.0 if rng.random() < 0.1 else 10 ** rng.uniform(-2, 0)))
     return case
@@ -1249,7 +1330,8 @@ def _eval_case(ctx, case, gs):
     pr0 = make_probes(rng, case, sx)
     exports_first = bool(rng.random() < 0.5)
     ctx.count("exports-first:%s" % exports_first)
-    ox = observe(sx, pr0, "x", ctx, lambda: build(case), exports_first)
+    ctx.count("query-order:%s" % ("shuffled" if pr0.get("order") is not None else "alphabetical"))
+    sx, ox = observe_checked(ctx, case, sx, pr0, "x", exports_first, {"case": case, "g": None})
     d = case_size(case)
     Ls = d + float(np.linalg.norm(ref_point(case)))
     mx = model_measures(ctx, sx, case)
@@ -1268,8 +1350,14 @@ def _eval_case(ctx, case, gs):
                      "a valid shape became an error under %s: constructor raised %s" % (g["kind"], exc_kind(e)),
                      record, repr(e))
             continue
+        if g.get("via"):
+            # the same g(x), but REACHED THROUGH MUTATORS: whatever a mutator forgets to refresh is now stale
+            sg, how = history.maybe_via_history(sg, history.rng_for([gcase.get("vertices", gcase.get("center")), g["s"]]),
+                                                1.0, ctx)
+        if g.get("near_axis"):
+            ctx.count("g:near-axis")
         pr = map_probes(pr0, g)
-        og = observe(sg, pr, "g", ctx, lambda: build(gcase), exports_first)
+        sg, og = observe_checked(ctx, gcase, sg, pr, "g", exports_first, record)
         env = Env(ctx, case, gcase, g, sx, sg, ox, og, pr)
         res = compare(env)
         if getattr(env, "flipped", None):
@@ -1299,6 +1387,20 @@ def _eval_case(ctx, case, gs):
         mg = model_measures(ctx, sg, gcase)
         correspondence(ctx, gcase, sg, og, mg, env.Lg, env.dg, ":on-g(x)")
         model_covariance(ctx, case, g, mx, mg, env)
+
+
+def observe_checked(ctx, case, shape, pr, which, exports_first, record):
+    """observe; an export that raises AND leaves the shape moved is reported once (its own signature), and the
+    observation is repeated on a fresh copy without the exports-first prelude"""
+    obs = observe(shape, pr, which, ctx, lambda: build(case), exports_first)
+    if "__export_moved__" in obs:
+        nm, kind, moved = obs["__export_moved__"][1]
+        ctx.fail("%s.%s:raises-and-leaves-shape-moved" % (case["cls"], nm),
+                 "%s raised %s half-way and left the shape translated (by %r): every later query answers for a shape "
+                 "at another position" % (nm, kind, moved), record, [nm, kind, moved])
+        shape = build(case)
+        obs = observe(shape, pr, which, ctx, lambda: build(case), False)
+    return shape, obs
 
 
 def attribute(ctx, case, sx, ox, pr0, g, name):
@@ -1367,6 +1469,11 @@ def choose_gs(rng, case, ctx):
     gs = [make_g(rng, k, case) for k in kinds]
     if cls in ("Polygon", "ConvexPolygon", "ConvexSpheropolygon"):
         gs.append(far_corner(rng, case))
+    for g in gs:
+        if "layout" in case:
+            g["layout"] = "N2" if rng.random() < 0.5 else "N3"
+        # g(x) reached through mutators (scaled, shifted copy -> every member read -> size / centroid setters)
+        g["via"] = bool(rng.random() < 1.0 / 3.0)
     return gs
 
 
@@ -1460,6 +1567,46 @@ def corpus(ctx):
         c = dict(base)
         c["window"] = True
         out.append((c, [ident("scaling", s=1e3)]))
+    # absolute np.isclose(z, 0) of Circle / Ellipse.is_inside (finding): size 1e-3 against size 1
+    out.append(({"cls": "Circle", "radius": 1e-3, "center": [0.0, 0.0, 0.0], "plane": "xy", "window": "z"},
+                [ident("scaling", s=1e3)]))
+    out.append(({"cls": "Ellipse", "a": 1e-3, "b": 2e-3, "center": [0.0, 0.0, 0.0], "plane": "xy", "window": "z"},
+                [ident("scaling", s=1e3)]))
+    # coplanarity tolerance relative to the plane's distance from the origin (finding): float32-rounded pentagon
+    pv = planarity_polygon()
+    for cls in ("Polygon", "ConvexPolygon"):
+        vv = pv if cls == "Polygon" else pv[:4]
+        out.append(({"cls": cls, "vertices": vv.tolist(), "normal": None, "kind": "float32-pentagon", "plane": "random",
+                     "orientation": "ccw", "window": "planarity"},
+                    [ident("translation", t=-vv[0]), ident("translation", t=-vv.mean(axis=0))]))
+    # almost axis-aligned copies of axis-aligned shapes (slope ~ +-1e-7..3e-2 next to the slope 0 / infinity branches of
+    # distance_to_surface and _get_outward_unit_normal; normals next to the argmax ties of signed_area)
+    nq = [ident("rotation", R=rot_z(a), alpha=a) for a in
+          (1e-7, -1e-7, 3e-6, 8e-6, np.pi / 2 + 1e-5, np.pi - 2e-4, 3 * np.pi / 2 - 3e-3, 3e-2, np.pi / 2 - 1e-7)]
+    for cls in ("ConvexPolygon", "Polygon"):
+        out.append((rect_case(cls, 2.0, 1.0, o=(-1.0, -0.5)), nq))
+        out.append((rect_case(cls, 2.0, 1.0, o=(0.25, 0.5)), nq[::2]))
+    out.append((rect_case("ConvexSpheropolygon", 2.0, 1.0, o=(-1.0, -0.5), radius=0.3), nq))
+    # x ITSELF in an almost-flat plane (tilt 3e-7 / 2e-8 rad about an in-plane axis, optionally flipped), far from the
+    # origin along the normal: a shortcut that treats "normal ~ +-z" as "normal = +-z" is wrong to first order in
+    # tilt * offset / size, while the rotated copy is computed in the general way
+    for tilt, flip in ((3e-7, False), (2e-8, True), (4e-5, False)):
+        ax = np.array([1.0, 1.0, 0.0]) / np.sqrt(2.0)
+        K = np.array([[0, -ax[2], ax[1]], [ax[2], 0, -ax[0]], [-ax[1], ax[0], 0]])
+        Rt = np.eye(3) + np.sin(tilt) * K + (1 - np.cos(tilt)) * (K @ K)
+        if flip:
+            Rt = Rt @ np.diag([1.0, -1.0, -1.0])
+        rv = np.array(rect_case("Polygon", 2.0, 1.0, o=(0.25, 0.5))["vertices"]) @ Rt.T + np.array([3.0, -2.0, 17.0])
+        for cls in ("Polygon", "ConvexPolygon"):
+            out.append(({"cls": cls, "vertices": rv.tolist(), "normal": None, "kind": "rect-nearflat", "plane": "random",
+                         "orientation": "ccw"},
+                        [ident("rotation", R=gen.random_rotation(np.random.default_rng(31))), scales[0],
+                         ident("translation", t=np.array([-3.0, 2.0, -17.0]))]))
+    na = [ident("rotation", R=gen.near_axis_rotation(np.random.default_rng(k))) for k in (21, 22, 23, 24)]
+    out.append((box_case("ConvexPolyhedron", [1.0, 2.0, 0.5]), na))
+    out.append((box_case("Polyhedron", [1.0, 2.0, 0.5]), na[:2]))
+    out.append((rect_case("Polygon", 2.0, 1.0, o=(0.25, 0.5)), na))
+    out.append((rect_case("ConvexPolygon", 2.0, 1.0, o=(-1.0, -0.5)), na[1:3]))
     return out
 
 
@@ -1483,17 +1630,75 @@ def eval_window_case(ctx, case, g):
                  [complex(e[0]), complex(fg[0])])
 
 
+def eval_zwindow_case(ctx, case, g):
+    """Circle / Ellipse.is_inside: the out-of-plane switch np.isclose(z, 0) is absolute (1e-8).  A point 5e-6 radii
+    above the plane of a shape of size 1e-3 is 'inside'; the same configuration at size 1 is not."""
+    cls = case["cls"]
+    sx, gcase = build(case), transform_case(case, g)
+    sg = build(gcase)
+    size = case_size(case)
+    p = np.asarray(case["center"], dtype=float) + np.array([0.05, 0.1, 2.5e-6]) * size
+    ix = bool(np.asarray(sx.is_inside(np.array([p])))[0])
+    ig = bool(np.asarray(sg.is_inside(np.array([gp(g, p)])))[0])
+    ctx.count("zwindow:" + cls)
+    if ix != ig:
+        ctx.fail("%s.is_inside:isclose-z-window:scaling" % cls,
+                 "containment is not scale covariant: the out-of-plane test np.isclose(z, 0) is absolute (1e-8), so a "
+                 "point 2.5e-6 sizes off the plane is inside at size 1e-3 and outside at size 1",
+                 {"case": case, "g": g_json(g), "point": p.tolist()}, [ix, ig])
+
+
+def planarity_polygon():
+    """a pentagon in a tilted plane 0.4 away from the origin whose coordinates were rounded to float32 (out-of-plane
+    deviation ~3e-8 of its size): accepted where it is, since the coplanarity tolerance is 1e-8 + 1e-5*|d| with d the
+    distance of the PLANE FROM THE ORIGIN"""
+    R = gen.random_rotation(np.random.default_rng(1))
+    sq = np.array([[0, 0, 0], [1, 0, 0], [1, 1, 0], [0, 1, 0.0], [-0.3, 0.5, 0]]) - 0.4
+    return (sq @ R.T).astype(np.float32).astype(float)
+
+
+def eval_planarity_case(ctx, case, g):
+    cls = case["cls"]
+    try:
+        build(case)
+    except Exception as e:  # noqa: BLE001
+        ctx.fail("%s.__init__:raises" % cls, "constructor raised %s on the corpus polygon" % exc_kind(e), case, repr(e))
+        return
+    ctx.count("planarity:" + cls)
+    try:
+        build(transform_case(case, g))
+    except ValueError as e:
+        if "coplanar" in str(e):
+            ctx.fail("%s.__init__:planarity-tolerance:%s" % (cls, g["kind"]),
+                     "a polygon accepted by the constructor becomes 'Not all vertices are coplanar' under a %s: the "
+                     "coplanarity test np.isclose(n.v, d, planar_tolerance) has atol 1e-8 and a relative part "
+                     "proportional to d = distance of the plane from the origin, not to the polygon's size"
+                     % g["kind"], {"case": case, "g": g_json(g)}, str(e))
+        else:
+            ctx.fail("%s.__init__:covariance:%s" % (cls, g["kind"]), "constructor raised on g(x)", {"case": case, "g": g_json(g)}, str(e))
+
+
+def run_corpus_case(ctx, case, gs):
+    w = case.get("window")
+    if w is True:
+        eval_window_case(ctx, case, gs[0])
+    elif w == "z":
+        eval_zwindow_case(ctx, case, gs[0])
+    elif w == "planarity":
+        for g in gs:
+            eval_planarity_case(ctx, case, g)
+    else:
+        eval_case(ctx, case, gs)
+
+
 def run(ctx):
     if ctx.widen == 1:
         for case, gs in corpus(ctx):
             case = dict(case, probe_seed=1)
             ctx.case({"case": case, "gs": [g_json(g) for g in gs]})
             ctx.count("corpus")
-            if case.get("window"):
-                eval_window_case(ctx, case, gs[0])
-            else:
-                eval_case(ctx, case, gs)
-    n = ctx.budget(180, 2500)
+            run_corpus_case(ctx, case, gs)
+    n = ctx.budget(110, 1600)
     for _ in range(n):
         case = new_case(ctx.rng, ctx)
         gs = choose_gs(ctx.rng, case, ctx)
@@ -1506,9 +1711,6 @@ def replay(ctx, payload):
     if "gs" in rec:
         case, gs = rec["case"], [g_from_json(j) for j in rec["gs"]]
     else:
-        case, gs = rec["case"], [g_from_json(rec["g"])]
+        case, gs = rec["case"], ([g_from_json(rec["g"])] if rec.get("g") else [])
     ctx.case({"case": case, "gs": [g_json(g) for g in gs]})
-    if case.get("window"):
-        eval_window_case(ctx, case, gs[0])
-    else:
-        eval_case(ctx, case, gs)
+    run_corpus_case(ctx, case, gs)
